@@ -13,5 +13,15 @@ M = [
  ("r10_rest_ocra_validate_structured_suite_ignores_hash", ["C18"], H, "\t\tok, _ := otp.ValidateOCRA(req.Secret, req.Code, suite, input)", "\t\tif sc, isCfg := suite.(otp.RawSuite); isCfg && req.RawSuite == \"\" {\n\t\t\tsc.Hash = otp.SHA1\n\t\t\tsuite = sc\n\t\t}\n\t\tok, _ := otp.ValidateOCRA(req.Secret, req.Code, suite, input)"),
  ("r11_rest_hotp_generate_counter_32bit", ["C18"], H, "\t\tcode, err := otp.GenerateHOTP(req.Secret, req.Counter, &otp.Param{", "\t\tcode, err := otp.GenerateHOTP(req.Secret, uint64(uint32(req.Counter)), &otp.Param{"),
 ]
+W = "wasm/main.go"
+M += [
+ ("w01_js_export_table_crossed", ["C20"], "otp-js/src/index.js", "          generateHOTP: globalThis.generateHOTP,", "          generateHOTP: globalThis.generateTOTP,"),
+ ("w02_wasm_pow10_short", ["C20"], "derive_rfc4226_wasm.go", "\tfor i := 0; i < n; i++ {\n\t\tresult *= 10", "\tfor i := 1; i < n; i++ {\n\t\tresult *= 10"),
+ ("w03_wasm_hotp_skew_range_unchecked", ["C20"], W, "\tif skew < 0 || skew > 10 {\n\t\treturn js.ValueOf(\"error: skew must be in range [0,10]\")\n\t}\n", ""),
+ ("w04_wasm_totp_validate_ignores_period", ["C20"], W, "\tcounter := otp.TimeCounterFunc(t, uint(period))\n\n\tfor i := -int64(skew)", "\tcounter := otp.TimeCounterFunc(t, 30)\n\n\tfor i := -int64(skew)"),
+ ("w05_wasm_negative_numbers_accepted", ["C20"], W, "\tif value < 0 {\n\t\treturn 0, fmt.Errorf(\"%s must be non-negative, got %d\", name, value)\n\t}\n", ""),
+ ("w06_wasm_totp_window_forward_only", ["C20"], W, "\tfor i := -int64(skew); i <= int64(skew); i++ {\n\t\tvalid, err := otp.ValidateOTPWasm(code, secretBuf, counter+uint64(i), digits, algo)", "\tfor i := int64(0); i <= int64(skew); i++ {\n\t\tvalid, err := otp.ValidateOTPWasm(code, secretBuf, counter+uint64(i), digits, algo)"),
+ ("w07_wasm_validate_short_compare", ["C20"], "validate_wasm.go", "\tif len(code) != digitInt {\n\t\treturn false, ErrInvalidCodeLength\n\t}\n", "\tif len(code) > digitInt {\n\t\treturn false, ErrInvalidCodeLength\n\t}\n\tif len(code) < digitInt {\n\t\tcode = code + \"0\"\n\t}\n"),
+]
 EXTRA = {}
 FIRST = {"r05_rest_decode_error_status_200"}
